@@ -608,6 +608,46 @@ theorem stages_have_parameters (fl : Flags) (ct : CType) (p : Params) (icc inver
   · intro hs hn; have := h2 hs; simp [presentOf, hn] at this
   · intro hs hn; have := h3 hs; simp [presentOf, hn] at this
 
+/-! ## Clause: every read entry point uses the frame's own parameters and the caller's options -/
+
+/-- **Every construction site forwards every option.**  In image.py (as it is now) each of the sites where a
+pixel transform is built - `get_frame`, both sites of `get_frames`, both sites of `_get_pixels_by_frame`,
+`get_volume_from_series` - and each call that delegates to them (`get_volume` -> `get_total_pixel_matrix` /
+`_get_pixels_by_frame`, `get_total_pixel_matrix` -> `_get_pixels_by_frame`) passes all nine flag / selector /
+range arguments of the caller on unchanged, and the output dtype. -/
+theorem every_site_forwards_every_option :
+    ∀ s ∈ cptCallSites, (∀ o ∈ forwardedOptions, siteForwards s o = true) ∧ siteForwardsDtype s = true := by
+  decide +kernel
+
+/-- the sites exist: all five read entry points are in the table (a table emptied by a refactoring would make
+the previous theorem vacuous) -/
+theorem entry_points_in_table :
+    (cptCallSites.map fun s => (s.fn, s.kind, s.ordinal)) =
+      [("_Image.get_frame", "transform", 0), ("_Image.get_frames", "transform", 0), ("_Image.get_frames", "transform", 1),
+       ("_Image._get_pixels_by_frame", "transform", 0), ("_Image._get_pixels_by_frame", "transform", 1),
+       ("Image.get_volume", "total_pixel_matrix", 0), ("Image.get_volume", "pixels_by_frame", 0),
+       ("Image.get_total_pixel_matrix", "pixels_by_frame", 0), ("get_volume_from_series", "transform", 0)] := by
+  decide +kernel
+
+/-- **The transform of frame f is built from f's own parameters.**  Every transform built inside a frame loop is
+built for the frame of that iteration (`frame_index=frame_index` on the image itself, or the instance `ds` of the
+series), and a per-frame rebuild is skipped only when the shared transform `applies_to_all_frames`; the series
+reader builds one per instance unconditionally (no reuse between instances). -/
+theorem loop_sites_use_the_frame :
+    ∀ s ∈ cptCallSites, s.kind = "transform" → s.inLoop = true →
+      ((s.target = "self" ∧ s.kws.contains ("frame_index", "frame_index") = true ∧
+          s.guards = ["not shared_frame_transform.applies_to_all_frames"]) ∨
+       (s.fn = "get_volume_from_series" ∧ s.target = "ds" ∧ s.guards = [])) := by
+  decide +kernel
+
+/-- `get_frame` builds its transform for the requested frame, `get_frames` its reusable one for the first
+requested frame. -/
+theorem single_sites_use_the_frame :
+    ∀ s ∈ cptCallSites, s.kind = "transform" → s.inLoop = false →
+      (s.fn = "_Image.get_frame" → s.kws.contains ("frame_index", "frame_index") = true) ∧
+      (s.fn = "_Image.get_frames" → s.kws.contains ("frame_index", "first_frame_index") = true) ∧ s.guards = [] := by
+  decide +kernel
+
 /-! ## Quantifier: output dtype -/
 
 /-- **Output dtype.**  When `_check_rescale_dtype` accepts an integer output type, every value the rescale
@@ -808,35 +848,18 @@ theorem frames_eq_frame {ρ μ ω β} (im : Meta ρ μ ω) (useRw useMod useVoi 
     (n : Nat) (fs : List Nat) (hfs : ∀ f ∈ fs, f < n)
     (h1 : Uniform im.rwvm n) (h2 : Uniform im.rescale n) (h3 : Uniform im.window n) :
     getFrames im useRw useMod useVoi apply fs = fs.map (getFrame im useRw useMod useVoi apply) := by
-  unfold getFrames getFrame
+  unfold getFrames
   cases fs with
   | nil => rfl
-  | cons f0 rest =>
-    have h0 : f0 < n := hfs f0 (by simp)
-    simp only []
-    apply List.map_congr_left
-    intro f hf
-    have hfn := hfs f hf
-    by_cases hall : (discover im useRw useMod useVoi f0).all = true
-    · simp only [hall, ↓reduceIte]
-      suffices discover im useRw useMod useVoi f = discover im useRw useMod useVoi f0 by rw [this]
-      unfold discover at hall ⊢
-      cases hr : (if useRw then im.rwvm.find f0 else none) with
-      | some x =>
-        obtain ⟨r, sh⟩ := x
-        rw [hr] at hall
-        simp only at hall
-        have : (if useRw then im.rwvm.find f else none) = (if useRw then im.rwvm.find f0 else none) :=
-          opt_find_stable _ useRw n f f0 h1 h0 hfn (by rw [hr]; exact hall)
-        rw [this, hr]
-      | none =>
-        rw [hr] at hall
-        have hrf : (if useRw then im.rwvm.find f else none) = none := by
-          rw [opt_find_stable _ useRw n f f0 h1 h0 hfn (by rw [hr]), hr]
-        rw [hrf]
-        simp only [Bool.and_eq_true] at hall ⊢
-        rw [opt_find_stable _ useMod n f f0 h2 h0 hfn hall.1, opt_find_stable _ useVoi n f f0 h3 h0 hfn hall.2]
-    · simp [hall]
+  | cons f0 rest => exact getWith_eq im useRw useMod useVoi apply n f0 (f0 :: rest) (hfs f0 (by simp)) hfs h1 h2 h3
+
+/-- **`get_volume` / `get_total_pixel_matrix` = `get_frame` frame by frame**: the same for the loop of
+`_get_pixels_by_frame`, whose reusable transform is built for frame 1. -/
+theorem pixels_by_frame_eq_frame {ρ μ ω β} (im : Meta ρ μ ω) (useRw useMod useVoi : Bool) (apply : Found ρ μ ω → Nat → β)
+    (n : Nat) (fs : List Nat) (h0 : 0 < n) (hfs : ∀ f ∈ fs, f < n)
+    (h1 : Uniform im.rwvm n) (h2 : Uniform im.rescale n) (h3 : Uniform im.window n) :
+    getPixelsByFrame im useRw useMod useVoi apply fs = fs.map (getFrame im useRw useMod useVoi apply) :=
+  getWith_eq im useRw useMod useVoi apply n 0 fs h0 hfs h1 h2 h3
 
 /-- **Counterexample at width 1** (open finding C06-linear-width-one).  At w = 1 the window function as written
 divides by w - 1 = 0.  Over `Rat` (x / 0 = 0) the translated formula returns the lower output value for a pixel
